@@ -92,7 +92,8 @@ Definition ex_g : grammar :=
          [ Alternative [Terminal "a.b" (Some "say ""hi"" \") 0 ex_sp; NontermRef "FILE" 0 ex_sp] ex_sp;
            Subword (Sequence [Terminal "--o=" None 0 ex_sp;
                               Fallback [Terminal "x" None 0 ex_sp; Command "ls }" false 0 ex_sp] ex_sp] ex_sp) 0 ex_sp;
-           Many1 (Optional (DistDescr (Terminal "y.." None 0 ex_sp) "d" ex_sp) ex_sp) ex_sp ] ex_sp);
+           Many1 (Optional (DistDescr (Terminal "y.." None 0 ex_sp) "d" ex_sp) ex_sp) ex_sp;
+           Subword (Sequence [Terminal "k" None 0 ex_sp; Terminal "v" None 0 ex_sp; Terminal "w" None 0 ex_sp] ex_sp) 0 ex_sp ] ex_sp);
     NontermDef "FILE" ex_sp (Some ("zsh", ex_sp)) (Command "_files" false 0 ex_sp) ].
 
 Definition ex_gap (k : nat) : gap :=
@@ -111,6 +112,6 @@ Example ex_C05_inhabited :
   wf ex_g
   /\ parse_with repaired (text ex_g ex_lay) = Ok (located ex_g ex_lay)
   /\ erase_grammar (located ex_g ex_lay) = erase_grammar ex_g
-  /\ String.length (text ex_g ex_lay) = 163%nat.
+  /\ String.length (text ex_g ex_lay) = 171%nat.
 Proof. vm_compute. repeat split; reflexivity. Qed.
 Print Assumptions ex_C05_inhabited.
